@@ -804,6 +804,22 @@ def rewrite_sig(sig, fired, ret_name='r'):
 SEP = '\x01'
 
 
+def _fuzzy_normalise(body, text, fired):
+    """if `text` does not occur literally but its token sequence occurs exactly once modulo white space and comments, rewrite that occurrence to
+    `text`'s own spelling (same tokens; line count kept) and return the new body; otherwise return body unchanged"""
+    toks = re.findall(r'[A-Za-z_][A-Za-z0-9_]*|\d+|\S', text)
+    if not toks:
+        return body
+    gap = r'(?:\s|//[^\n]*\n|/\*.*?\*/)*'
+    rx = re.compile(gap.join(re.escape(t) if not re.match(r'^\w+$', t) else r'\b' + re.escape(t) + r'\b' for t in toks), re.S)
+    hits = list(rx.finditer(body))
+    if len(hits) == 1 and SEP not in hits[0].group(0):
+        m = hits[0]
+        fired.append('R8 anchor %r matched modulo white space / comments' % text[:40])
+        return body[:m.start()] + _pad(text, m.group(0)) + body[m.end():]
+    return body
+
+
 def apply_splices(body, splices, fired, what):
     """splices: list of (anchor, mode, text); mode in after|before|replace. anchor must occur exactly once."""
     for sp in splices:
@@ -815,6 +831,8 @@ def apply_splices(body, splices, fired, what):
             body = '{' + SEP + txt.replace('\n', SEP) + SEP + body[1:]
             fired.append('R8 splice at function entry')
             continue
+        if within is not None and body.count(within) == 0 and '//' not in within:
+            body = _fuzzy_normalise(body, within, fired)      # the locator modulo white space / comments (see below)
         if within is not None:
             if body.count(within) != 1 or not within.startswith(anchor):
                 raise ExtractError('ANCHOR-LOST in %s: locator %r occurs %d times' % (what, within, body.count(within)))
